@@ -101,6 +101,9 @@ def extract_writes(F, X, body):
         w.payload_expr = None
         s = w.fields.get("string")
         if s is not None:
+            # a record built by a same-file constructor helper (`AttemptInfo::new(..)`) is that aggregate
+            bfile = body.span.get("f")
+            s = strip(mm.inline_pure(F, X, s, keep=lambda n, bfile=bfile: F.by_cdef.get(n) is None or F.by_cdef[n].span.get("f") != bfile or n.startswith("<")))
             for x in walk(s):
                 if x[0] == "agg" and x[1] == PERSIST_ADT:
                     w.payload = ("state", x[2])
